@@ -29,6 +29,15 @@ class SandboxBasicTracer:
         super().__init__()
         self.filename = "student.py"
         self.code = None
+        # Trace functions that were active when each execution started; a
+        # stack, because executions nest (a student file importing another)
+        self._previous_tracers = []
+
+    def _save_tracer(self):
+        self._previous_tracers.append(sys.gettrace())
+
+    def _restore_tracer(self):
+        sys.settrace(self._previous_tracers.pop())
 
     def as_filename(self, filename, code):
         if os.path.isabs(filename):
@@ -116,15 +125,14 @@ class SandboxNativeTracer(SandboxBasicTracer):
         self.returns = {}
         self.call_stack = []
         self.lines = []
-        self.old_tracer = None
         self.step_index = 1
 
     def __enter__(self):
-        self.old_tracer = sys.gettrace()
+        self._save_tracer()
         sys.settrace(self.tracer)
 
     def __exit__(self, exc_type, exc_val, traceback):
-        sys.settrace(self.old_tracer)
+        self._restore_tracer()
 
     def is_tracked_file(self, frame):
         left = os.path.basename(frame.f_code.co_filename)
@@ -180,11 +188,11 @@ class SandboxCallTracer(SandboxBasicTracer, Bdb):
 
     def __enter__(self):
         self.reset()
-        self._old_trace = sys.gettrace()
+        self._save_tracer()
         sys.settrace(self.trace_dispatch)
 
     def __exit__(self, exc_type, exc_val, traceback):
-        sys.settrace(self._old_trace)
+        self._restore_tracer()
         self.quitting = True
         # Return true to suppress exception (if it is a BdbQuit)
         return isinstance(exc_type, BdbQuit)
